@@ -148,7 +148,10 @@ def classify_fuzz_log(log):
 def shapes(tier):
     # sizes up to 256 KiB run on the ASan build; the MiB sizes only on the plain build ('big-' names): the scanner grows
     # its scratch buffer by 32 bytes per realloc, which ASan's always-copying realloc turns into minutes per MiB
-    big = [1, 31, 32, 33, 4095, 4096, 16384, 16385, 65536, 262144, 1 << 20] + ([1 << 24] if tier == 'thorough' else [1 << 22])
+    # (16 MiB tokens were dropped: the generated scanner re-scans a token from its start after every 8 KiB refill, so the
+    # time is quadratic in the token size - 1 MiB 0.9 s, 4 MiB 11 s, 16 MiB minutes on a loaded box - and the watchdog called
+    # that a hang; 4 MiB with a 20-minute solitary budget keeps a x100 margin)
+    big = [1, 31, 32, 33, 4095, 4096, 16384, 16385, 65536, 262144, 1 << 20, 1 << 22]
     S = []
     for n in big:
         S.append(('huge-dq-string-%d' % n, 's = "' + 'a' * n + '"\n'))
@@ -342,7 +345,7 @@ def run(tier, seed, bindirs):
     r1 = core.explore('checks.c02', [s for s in sp if not s.get('heavy')], bindirs, chunk=6, opts={'timeout': 900, 'solo_timeout': 300})
     res.merge(r1)
     deep = [s for s in sp if s.get('heavy') or any(k in s['name'] for k in ('nested', 'open-braces', 'open-parens', 'close-braces'))]
-    r2 = core.explore('checks.c02', deep, bindirs, chunk=6, opts={'variant': 'plain', 'timeout': 900, 'solo_timeout': 300})
+    r2 = core.explore('checks.c02', deep, bindirs, chunk=3, opts={'variant': 'plain', 'timeout': 2400, 'solo_timeout': 1200})
     r2.nontrivial = set()
     res.extra['plain_build_cases'] = r2.evaluations
     res.merge(r2)
